@@ -771,6 +771,7 @@ func rulePanic(sc panicScope) ruleFn {
 			a, b := r.nilChecks(fn)
 			nP3 += a
 			nP5 += b
+			r.nilMapWrites(fn)
 		}
 		_ = nP2
 		_ = nP4
@@ -820,6 +821,16 @@ func (r *Run) maybeNilSource(v ssa.Value) (kind, desc string, ok bool) {
 	case *ssa.UnOp:
 		if x.Op != token.MUL {
 			return
+		}
+		// element of a []*T that was filled by json.Unmarshal: `null` entries decode to nil
+		if ia, isIA := x.X.(*ssa.IndexAddr); isIA {
+			if _, isPtr := x.Type().Underlying().(*types.Pointer); isPtr {
+				if ld, isLd := ia.X.(*ssa.UnOp); isLd && ld.Op == token.MUL {
+					if al, isAl := ld.X.(*ssa.Alloc); isAl && jsonDecodedInto(al) {
+						return "P5", "element of a JSON-decoded " + shortType(ld.Type()), true
+					}
+				}
+			}
 		}
 		fa, ok2 := x.X.(*ssa.FieldAddr)
 		if !ok2 {
@@ -1216,4 +1227,97 @@ func useTable(r *Run, t map[string]tabEntry, key string) (string, bool) {
 		return "", false
 	}
 	return e.Reason, true
+}
+
+// jsonDecodedInto: the address of al is handed to encoding/json (Unmarshal / Decoder.Decode).
+func jsonDecodedInto(al *ssa.Alloc) bool {
+	for _, ref := range *al.Referrers() {
+		mi, ok := ref.(*ssa.MakeInterface)
+		if !ok {
+			continue
+		}
+		for _, r2 := range *mi.Referrers() {
+			if ci, ok := r2.(ssa.CallInstruction); ok {
+				switch calleeName(ci.Common()) {
+				case "encoding/json.Unmarshal", "(*encoding/json.Decoder).Decode":
+					return true
+				}
+			}
+		}
+	}
+	return false
+}
+
+// nilMapWrites (R7.P3m): a map obtained from a call that returns a nil map on some path
+// (typically together with an error) is written without a test that excludes that path.
+func (r *Run) nilMapWrites(fn *ssa.Function) {
+	name := fnName(fn)
+	for _, ins := range allInstrs(fn) {
+		mu, ok := ins.(*ssa.MapUpdate)
+		if !ok {
+			continue
+		}
+		var srcs []ssa.Value
+		seen := map[ssa.Value]bool{}
+		var collect func(v ssa.Value)
+		collect = func(v ssa.Value) {
+			if seen[v] {
+				return
+			}
+			seen[v] = true
+			if p, ok := v.(*ssa.Phi); ok {
+				for _, e := range p.Edges {
+					collect(e)
+				}
+				return
+			}
+			srcs = append(srcs, v)
+		}
+		collect(mu.Map)
+		for _, v := range srcs {
+			ex, ok := v.(*ssa.Extract)
+			if !ok {
+				continue
+			}
+			call, ok := ex.Tuple.(*ssa.Call)
+			if !ok {
+				continue
+			}
+			// can a callee return a nil map at this index?
+			nilRet := false
+			for _, e := range r.P.CG.Out[fn] {
+				if e.Site != ssa.CallInstruction(call) || e.Kind == "param" || e.Kind == "hoarg" || e.Kind == "extarg" {
+					continue
+				}
+				for _, ret := range returnsOf(e.Callee) {
+					vals := retVals(ret)
+					if ex.Index < len(vals) && isNilConst(unwrap(vals[ex.Index])) {
+						nilRet = true
+					}
+				}
+			}
+			if !nilRet {
+				continue
+			}
+			// discharged by a nil test of the map, or by the success side of the call's error test
+			okGuard, _ := r.nonNilAt(ex, mu)
+			if !okGuard {
+				for _, ref := range *call.Referrers() {
+					if e2, ok := ref.(*ssa.Extract); ok && isErrorish(e2.Type()) {
+						for _, t := range failureTests(e2) {
+							if len(t.ok.Preds) == 1 && (t.ok == mu.Block() || t.ok.Dominates(mu.Block())) {
+								okGuard = true
+							}
+						}
+					}
+				}
+			}
+			construct := "write into map returned by " + calleeDesc(&call.Call)
+			if okGuard {
+				r.OK("R7.P3m", name, construct, r.P.pos(mu.Pos()), "the write is behind a nil test of the map or the success side of the call's error test")
+			} else {
+				r.Bad("R7.P3m", name, construct, r.P.pos(mu.Pos()), calleeDesc(&call.Call)+" returns a nil map on some path (its error path); writing into that map panics with `assignment to entry in nil map`; "+r.ctxNote(fn))
+			}
+		}
+	}
 }
